@@ -128,7 +128,7 @@ def main(argv):
         kfut = None
         if k_groups:
             kfut = ex.submit(kanirun.run_groups, prop, k_groups, tier, REPO)
-        bfut = ex.submit(kanirun.run_bounded, REPO, prop) if P.get("bounded") else None
+        bfut = ex.submit(kanirun.run_bounded, REPO, prop, 1800 * (3 if tier == "thorough" else 1), tier) if P.get("bounded") else None
         for f in cf.as_completed(futs):
             kind, u = futs[f]
             try:
